@@ -11,6 +11,11 @@ CHECKS = {
    text="Every CFG path of every function outside the board crate is explored in the product (block x outstanding makes x return kind); a path that returns with a move still made on a borrowed board is reported with its witness. This decides the take-back mechanism for every interruption point at once; it does not decide score equality.",
    note="Trusted: rustc's MIR construction and callee resolution, the JSON fact extractor, the ~100-line exploration. Assumes make/unmake are the only in-place board mutators used by the search (C03 checks they mirror each other). Unwind paths ignored.",
    ref="4/C09"),
+ "C13": dict(
+   technique="static analysis: all-paths make/unmake balance with return kinds (Ok/Err/?) over MIR; roll-back idiom and error-arm write-set checks",
+   text="Every path of every board-crate function that probes a move is explored with the outstanding-make count and the kind of return; an Err/? return with a move still made is reported with its witness path. make_uci's +1-on-Ok contract, make_all_uci's roll-back loop and the position-replay caller's error arm are checked structurally. Decides the no-side-effect clause for every input at once; does not decide that acceptance equals legality.",
+   note="Trusted: rustc MIR + callee resolution, the extractor, the exploration. Assumes make/unmake are exact inverses (C03) and that &self helpers do not mutate (enforced by the borrow checker).",
+   ref="4/C13"),
 }
 NOT_APPLICABLE = {
  "C17": "PGN tokenisation under arbitrary read fragmentation is decided by runtime bytes; the only structural clause in reach (buffer read only behind ensure_buffer) is too weak to stand for the property (DESIGN.md section 1).",
